@@ -898,7 +898,51 @@ func judge(c *lib.Ctx, r *real, sp spec) (outcome string) {
 		c.Fail("", failCase{sp, src}, "observation differs from the scoping model\n  program: %s\n%s\n  real:  %v\n  model: %v", sp, src, got, want)
 		return "mismatch"
 	}
+	// second context: the same program as a function literal nested in a wrapper
+	// function that has just called a closure of its own at the call depth the
+	// program then runs at. The program's variables stay its own (the wrapper's x
+	// is another binding), a `return` in one of its blocks returns from the program
+	// and the wrapper continues.
+	wsrc, wargs := wrapSource(f, args)
+	wwant := wrapModel(want)
+	wgot, cerr := r.runReal(wsrc, f, wargs, slots)
+	if cerr != "" {
+		c.Fail("", failCase{sp, wsrc}, "program compiles on its own but not nested in a function: %s\n%s\n%s", cerr, sp, wsrc)
+		return "compile-error"
+	}
+	if strings.Join(wgot, "|") != strings.Join(wwant, "|") {
+		c.Fail("", failCase{sp, wsrc}, "observation differs from the scoping model when the program is a function nested in another function that called a closure before\n  program: %s\n%s\n  real:  %v\n  model: %v", sp, wsrc, wgot, wwant)
+		return "mismatch"
+	}
 	return strings.Join(want, "|")
+}
+
+// wrapSource nests the program in a wrapper function: the wrapper shares its
+// own x with a block, calls that block, then defines and calls the program.
+func wrapSource(f *scope, args []int) (string, []int) {
+	var ps []string
+	for i := range args {
+		ps = append(ps, fmt.Sprintf("p%d", i))
+	}
+	var sb strings.Builder
+	sb.WriteString("function (" + strings.Join(ps, ", ") + ")\n{\nx = 50\nw = { x = 51 }\nw()\nf = ")
+	sb.WriteString(source(f))
+	sb.WriteString("\nr = f(" + strings.Join(ps, ", ") + ")\nSuneido.L.Add('after', x)\nreturn r\n}")
+	return sb.String(), args
+}
+
+// wrapModel derives the wrapper's expected observation from the program's: the
+// same log and result, plus the wrapper's own log entry when the program
+// returned (an exception passes through the wrapper).
+func wrapModel(want []string) []string {
+	var out []string
+	for _, w := range want {
+		if strings.HasPrefix(w, "F returns ") {
+			out = append(out, "after", "51")
+		}
+		out = append(out, w)
+	}
+	return out
 }
 
 func run(c *lib.Ctx) {
@@ -971,7 +1015,8 @@ func main() {
 		ID:    "C29",
 		Level: "exploration",
 		Rule: "every program of the block grammar (nesting shape x role of x and y per scope x call pattern x ending per block) compiled and run on the real interpreter, " +
-			"observation (read log, call results, exceptions, escaped block calls) compared with the environment-passing reference interpreter; " +
+			"observation (read log, call results, exceptions, escaped block calls) compared with the environment-passing reference interpreter, " +
+			"once on its own and once as a function literal nested in a wrapper function that called a closure of its own before; " +
 			"evaluations = programs; programs are distinct by construction, non-trivial when a block ran or a variable was observed; the number of distinct observations is reported separately",
 		Assumptions: []string{
 			"interpretation fixed in DESIGN.md: a binding used by more than one scope has one cell per call of the outermost function; a binding used by one scope is private to each call",
